@@ -190,9 +190,12 @@ func (h *H) drawCase(rt *rapid.T, prop string, excl map[string]int) *core.Case {
 		default:
 			s.OutRel = dir + "/sub/" + name
 		}
-		if g.Chance(12) {
+		if g.Chance(18) {
 			s.OutRel = "prepared/empty/" + name
 			s.EmptyParent = true
+			if g.Chance(35) {
+				s.Fault = "longname" // a write that fails inside the existing empty directory
+			}
 		}
 		if s.Fault == "badflag" {
 			// the flag package's own failure point: an undefined flag or an unparsable value in front of valid arguments
